@@ -145,6 +145,13 @@ theorem Spec.and {α : Type} {P P' : World → Prop} {x : M α} {Q Q' : α → W
   cases hr : x w with
   | mk r w' => rw [hr] at h1 h2; cases r <;> exact ⟨h1, h2⟩
 
+/-- a computation that always succeeds. -/
+theorem Spec.intro_ok {α : Type} {P : World → Prop} {x : M α} {Q : α → World → Prop} {E : World → Prop}
+    (h : ∀ w, P w → ∃ a w', x w = (.ok a, w') ∧ Q a w') : Spec P x Q E := by
+  intro w hw
+  obtain ⟨a, w', hr, hq⟩ := h w hw
+  rw [hr]; exact hq
+
 /-- reading the outcome of a `Spec` at a concrete run. -/
 theorem Spec.run_ok {α : Type} {P : World → Prop} {x : M α} {Q : α → World → Prop} {E : World → Prop}
     (h : Spec P x Q E) {w w' : World} {a : α} (hw : P w) (hr : x w = (.ok a, w')) : Q a w' := by
